@@ -223,6 +223,32 @@ def basic_literal(val):
     raise ValueError(val)
 
 
+def limit_depth(val, maxdepth):
+    """replace lists nested deeper than maxdepth by an int leaf"""
+    if val[0] != 'l':
+        return val
+    if maxdepth == 0:
+        return ['i', 1]
+    return ['l', [limit_depth(v, maxdepth - 1) for v in val[1]]]
+
+
+def sanitize(case):
+    """Memory is not modelled: a list nested 4 deep assigned to an array that was never dimensioned auto-dimensions
+    11^4 elements, which is Out of memory for doubles (and borderline for the other types).  Such values are cut to
+    depth 3 unless the array was dimensioned before (then the rank mismatch is Subscript out of range, no allocation)."""
+    dimmed = set()
+    ops = []
+    for op in case['ops']:
+        if op[0] == 'dim':
+            dimmed.add(op[1].upper())
+        elif op[0] == 'clear':
+            dimmed.clear()
+        elif op[0] == 'set' and '(' in op[1] and op[1].upper().split('(')[0] not in dimmed:
+            op = [op[0], op[1], limit_depth(op[2], 3)]
+        ops.append(op)
+    return dict(case, ops=ops)
+
+
 def name_bytes(name):
     return [ord(c) for c in name]
 
@@ -375,6 +401,17 @@ class C43(core.Check):
             press += [['set', 'A$()', ['l', row]], ['get', 'A$()', 0], ['set', 'T$', ['y', [104, 105, 48 + rnd % 10]]],
                       ['get', 'T$', 0]]
         c.append({'cp': '437', 'mem': 8000, 'ops': press})
+        # ragged list, 4 deep, with a 402-digit int (VERIF_SEED=7 alarm: undimensioned it auto-dimensions 11^4 doubles =
+        # Out of memory, which the memory-free model cannot say; dimensioned, the rank mismatch comes first; the
+        # generator now cuts undimensioned values to depth 3, see sanitize)
+        deep = ['l', [['l', [['l', [['l', [['i', 1]]], ['f', fhex(1 / 3)]]]]], ['l', [['l', [['l', [['i', 1]]], ['t', 0]]]]],
+                      ['l', [['l', [['i', -10 ** 401], ['f', '0x1.fffffffffc000p-48']]]]]]]
+        c.append({'cp': '866', 'ops': [['dim', 'Y#', [1, 1, 1]], ['set', 'Y#()', deep], ['get', 'Y#()', 0],
+                                       ['eval', 'Y#', [1, 0, 1]], ['get', 'Y#()', 5]]})
+        c.append(sanitize({'cp': '866', 'ops': [['set', 'Y#()', deep], ['get', 'Y#()', 0], ['eval', 'Y#', [1, 0, 1]],
+                                                ['get', 'Y#()', 5]]}))
+        c.append({'cp': '437', 'ops': [['set', 'Y#()', ['l', [['l', [['i', -10 ** 401], ['f', fhex(0.5)]]], ['i', 3]]]],
+                                       ['get', 'Y#()', 0]]})
         # identity conversion of a decomposed unicode string returns it unchanged (no NFC): minimised thorough alarm
         sc([['conv', ['u', [35, 56, 110, 768, 102, 45]], 5], ['conv', ['u', [110, 768]], 0], ['conv', ['u', [110, 768]], 4],
             ['conv', ['u', [68, 242]], 6], ['conv', ['l', [['u', [110, 768]]]], 6], ['conv', ['t', 1], 5]])
@@ -799,7 +836,7 @@ class C43(core.Check):
             out.append({'cp': '437', 'ops': [['set', 'S$', ['y', list(range(k, k + 32))]], ['get', 'S$', 0],
                                              ['get', 'S$', 5], ['eval', 'S$', []]]})
         self.histogram = hist
-        return out
+        return [sanitize(c) for c in out]
 
     # -------------------------------------------------------------------------------------------------
     # implementation adapter
